@@ -1,7 +1,7 @@
 (* Properties_C04.v — C04: saved files are structurally well-formed (objects
    without segments: proved; objects with segments: modelled and tied by the
    correspondence run, partial). *)
-From ElfioV Require Import Bytes Mem Stream SectionData Strings Elfio Table Loader Layout Layout_proofs.
+From ElfioV Require Import Bytes Mem Stream SectionData Strings Elfio Table Loader Layout Writer Ostream_proofs Layout_proofs Writer_proofs.
 Local Open Scope N_scope.
 
 (* The layout step of save() for an object without segments (any sections, any
@@ -39,6 +39,33 @@ Theorem C04_chain_disjoint :
     sh_offset a + csize a <= sh_offset b.
 Proof. exact chain_disjoint. Qed.
 Print Assumptions C04_chain_disjoint.
+
+(* the byte ranges save() writes for such an object — ELF header, every section
+   header record, every section's data — are pairwise disjoint *)
+Theorem C04_written_ranges_disjoint :
+  forall (h : ehdr) (secs : list section) (pos' : N),
+    chain secs (e_ehsize h) pos' -> indexed_from 0 secs -> pos' <= e_shoff h ->
+    (forall s, In s secs -> shdr_size (s_cls s) <= e_shentsize h) ->
+    (forall s, In s secs -> s_index s = 0 -> csize s = 0) ->
+    lenN (e_ident h) = 16 -> e_ehsize h = ehdr_size (e_cls h) ->
+    (forall s b, In s secs -> s_data s = Some b -> sh_size s <= lenN b) ->
+    all_disjoint (noseg_plan h secs).
+Proof. exact noseg_plan_disjoint. Qed.
+Print Assumptions C04_written_ranges_disjoint.
+
+(* and the layout step delivers those premises *)
+Theorem C04_layout_delivers :
+  forall el h0 bound,
+    el_hdr el = Some h0 -> el_segs el = [] ->
+    bound <= 2 ^ 64 -> Forall (fun s => bound <= 2 ^ xw (s_cls s)) (el_secs el) ->
+    e_ehsize h0 + budget (el_secs el) + 16 < bound -> bound <= 2 ^ xw (e_cls h0) ->
+    indexed_from 0 (el_secs el) ->
+    exists el' h',
+      layout el = Ok (el', true) /\ el_hdr el' = Some h' /\ indexed_from 0 (el_secs el') /\
+      exists pos', chain (el_secs el') (e_ehsize h') pos' /\ pos' <= e_shoff h' /\ e_ehsize h' = e_ehsize h0 /\
+                   e_shentsize h' = e_shentsize h0.
+Proof. exact noseg_ranges_disjoint. Qed.
+Print Assumptions C04_layout_delivers.
 
 (* non-vacuity: null section, 5 bytes aligned 1, 3 bytes aligned 8, no-bits aligned 16 *)
 Definition mk (i ty al sz : N) : section :=
